@@ -7,9 +7,9 @@ pub const CONTEXTS: [&str; 19] = [
     "when", "unless", "apply", "apply-apply", "apply-renamed", "apply-prefixed",
 ];
 pub const SHAPES: [&str; 6] = ["self", "mutual-2", "mutual-3", "through-parameter", "variadic", "closure-returned"];
-pub const SHAPES_ALL: [&str; 19] = [
+pub const SHAPES_ALL: [&str; 21] = [
     "self", "mutual-2", "mutual-3", "through-parameter", "variadic", "closure-returned", "internal-definition", "fresh-closure-per-iteration", "apply-as-parameter",
-    "body-with-internal-variable", "body-with-internal-procedure", "through-forwarder", "forwarder-cycle", "operator-is-a-conditional", "operator-is-and-or", "operator-with-an-effect", "let*-bound-procedure", "when-with-several-forms", "closure-over-the-loop-frame",
+    "body-with-internal-variable", "body-with-internal-procedure", "through-forwarder", "forwarder-cycle", "operator-is-a-conditional", "operator-is-and-or", "operator-with-an-effect", "let*-bound-procedure", "when-with-several-forms", "closure-over-the-loop-frame", "no-operands-self", "no-operands-mutual",
 ];
 
 /// put `x` (an expression in tail position) into the tail position of the given context
@@ -157,6 +157,22 @@ pub fn program(shape: &str, ctxs: &[&str], n: u32) -> Vec<String> {
                 w("(loop (- i 1) (step acc i) (keep! (lambda () (+ i 10))))")
             ));
             forms.push(format!("(loop {} 1 0)", n));
+        }
+        "no-operands-self" => {
+            // the loop passes nothing: its state lives in two globals that a helper advances
+            forms.push(format!("(define cnt {})", n));
+            forms.push("(define total 1)".to_string());
+            forms.push("(define (advance!) (set! total (step total cnt)) (set! cnt (- cnt 1)))".to_string());
+            forms.push(format!("(define (loop) (probe cnt) (if (= cnt 0) total (begin (advance!) {})))", w("(loop)")));
+            forms.push("(loop)".to_string());
+        }
+        "no-operands-mutual" => {
+            forms.push(format!("(define cnt {})", n));
+            forms.push("(define total 1)".to_string());
+            forms.push("(define (advance!) (set! total (step total cnt)) (set! cnt (- cnt 1)))".to_string());
+            forms.push(format!("(define (ping) (probe cnt) (if (= cnt 0) total (begin (advance!) {})))", w("(pong)")));
+            forms.push(format!("(define (pong) (probe cnt) (if (= cnt 0) total (let ((unused (advance!))) {})))", w("(ping)")));
+            forms.push("(ping)".to_string());
         }
         "through-forwarder" => {
             // the tail call goes through a procedure whose whole body is (apply f args)
